@@ -183,6 +183,10 @@ def run_prog_check(prop, props_files, tier, oracles, features=gen_prog.ALL, n_qu
                             found.append((msg, tag))
             elif o.startswith("objects"):
                 want = o.split(":")[1:]
+                if term.startswith("panic") and "pn" not in c and ";q" in c:
+                    for p_, msg, tag in proglayer.oracle_manual_panic(evs, term, cs):
+                        if not want or p_ in want:
+                            found.append((msg, tag))
                 if not term.startswith("panic") and "pn" not in c:
                     for p_, msg, tag in proglayer.oracle_objects(evs, term, cs):
                         if not want or p_ in want:
